@@ -24,6 +24,9 @@ CLAIMED = {
  "C12": ("post-condition monitors on the real marginal/expected_log_prob/log_marginal/forward vs the documented noise operator built from public parameters",
          "Runtime monitoring: the real _GaussianLikelihoodBase.marginal is wrapped (mean, class and multitask layout preserved on every call, also inside other checks' workloads); workloads drive Gaussian, FixedNoise (with/without learned noise, with/without call-time noise), multitask (rank 0..t, global/task switches, both layouts), LikelihoodList and fantasy-likelihood histories over all broadcastable (likelihood batch, distribution batch) pairs; marginal(d).cov - d.cov, expected_log_prob, log_marginal and forward's scale are compared with closed forms in the documented R. Decides executed cells only.",
          "R is assembled from the public parameter properties (noise, second_noise, task_noises, task_noise_covar); torch dense algebra trusted.", "DESIGN.md §4 C12"),
+ "C06": ("metamorphic monitor: eager dense evaluation vs every other way of requesting the same kernel entries; index expressions enumerated; witnesses on LazyEvaluatedKernelTensor paths",
+         "Runtime monitoring of the real kernel / LazyEvaluatedKernelTensor API: for eleven kernels (single-output, composed, active_dims incl. permuted, multi-output Multitask/LCM/RBF-grad) and parameter x input batch patterns (incl. asymmetric x1/x2 batches) the eagerly evaluated matrix is compared with lazy.to_dense(), lazy[idx] for enumerated index expressions (fresh lazy tensor per expression), transpose, repeat, diag=True, K(x2,x1)^T, blocks of K([x1;x2]), kernel[i](x1[i],x2[i]) and expand_batch. Counters on _getitem/evaluate_kernel/_diagonal/_transpose_nonbatch show the lazy paths ran. Decides executed cells only.",
+         "torch's D[idx] is the reference semantics of an index expression; kernel values themselves are C05's business.", "DESIGN.md §4 C06"),
 }
 NOT_YET = "check not built yet in this round (see DESIGN.md §9 build order); not claimed until its monitor exists and is silent on the unchanged tree"
 
